@@ -531,7 +531,8 @@ def literal_batches(ctx, quick):
             for t in itertools.product(" /*x,", repeat=n):
                 b.lines.append(rd_line(kind, 0, tok, "".join(t)))
                 b.meta.append(("rdc", kind))
-        # the recovery loop of CheckRemainingInput ends with the record (fixes/C05-15): `;` outside a string literal
+        # the recovery loop of CheckRemainingInput ends with the record (fixes/C05-15 as corrected by C05-19): at the first `;`,
+        # quoted or not - the quote stays in the alphabet so that a return of the in-string parity is noticed
         for n in range(1, 5 if quick else 7):
             for t in itertools.product("x;',", repeat=n):
                 if ";" not in t:
